@@ -208,6 +208,7 @@ type bootCase struct {
 	RmGaps  bool      `json:"rmgaps"`
 	Alpha   string    `json:"alpha"`   // "" = no gamma
 	Frac    string    `json:"frac"`    // "" = full bootstrap
+	Gz      bool      `json:"gz"`      // the seqboot side writes gzipped replicates (--gz)
 	Threads []int     `json:"threads"` // seqboot, compute distance, distboot
 }
 
@@ -220,6 +221,7 @@ func genBoot(t *rapid.T) bootCase {
 	c.RmGaps = rapid.Bool().Draw(t, "rmgaps")
 	c.Alpha = rapid.SampledFrom([]string{"", "", "0.5", "1", "2.5"}).Draw(t, "alpha")
 	c.Frac = rapid.SampledFrom([]string{"", "", "0.5", "0.9"}).Draw(t, "frac")
+	c.Gz = rapid.Bool().Draw(t, "gz")
 	for i := 0; i < 3; i++ {
 		c.Threads = append(c.Threads, rapid.SampledFrom([]int{1, 2, 4, 16}).Draw(t, "threads"))
 	}
@@ -243,6 +245,9 @@ func checkBoot(c bootCase) (o pbt.Outcome, err error) {
 	}
 	// 1. bootstrap alignments
 	sbArgs := append(append([]string{"build", "seqboot", "-i", in, "-o", "boot"}, common...), "-t", fmt.Sprint(c.Threads[0]))
+	if c.Gz {
+		sbArgs = append(sbArgs, "--gz")
+	}
 	sb := execute(dir, "", sbArgs)
 	if sb.TimedOut {
 		o.Skip = true
@@ -251,16 +256,27 @@ func checkBoot(c bootCase) (o pbt.Outcome, err error) {
 	if sb.Exit != 0 {
 		return o, fmt.Errorf("goalign %s: exit %d", strings.Join(sbArgs, " "), sb.Exit)
 	}
-	if len(sb.Files) != c.N {
-		return o, fmt.Errorf("goalign %s wrote %d files for -n %d", strings.Join(sbArgs, " "), len(sb.Files), c.N)
+	nfiles := 0
+	for name := range sb.Files {
+		if !strings.HasSuffix(name, " [decompressed]") {
+			nfiles++
+		}
+	}
+	if nfiles != c.N {
+		return o, fmt.Errorf("goalign %s wrote %d files for -n %d: %v", strings.Join(sbArgs, " "), nfiles, c.N, fileNames(sb.Files))
 	}
 	// 2. distances of each of them, in order
 	var cat strings.Builder
 	failed := false
 	for i := 0; i < c.N; i++ {
-		content, ok := sb.Files[fmt.Sprintf("boot%d.fa", i)]
+		want := fmt.Sprintf("boot%d.fa", i)
+		if c.Gz {
+			// decompressed by the harness's own gzip reader (see execute)
+			want += ".gz [decompressed]"
+		}
+		content, ok := sb.Files[want]
 		if !ok {
-			return o, fmt.Errorf("goalign %s: no file boot%d.fa among %v", strings.Join(sbArgs, " "), i, fileNames(sb.Files))
+			return o, fmt.Errorf("goalign %s: no file %q among %v", strings.Join(sbArgs, " "), want, fileNames(sb.Files))
 		}
 		f := cli.TempFile(dir, ".fa", content)
 		args := append(append([]string{"compute", "distance", "-i", f}, dist...), "-t", fmt.Sprint(c.Threads[1]))
@@ -300,6 +316,7 @@ func checkBoot(c bootCase) (o pbt.Outcome, err error) {
 	o.Class(seedClass(c.Seed))
 	o.Class("n>1=%v", c.N > 1)
 	o.Class("partial=%v", c.Frac != "")
+	o.Class("seqboot --gz=%v", c.Gz)
 	o.Class("gamma=%v", c.Alpha != "")
 	if c.Threads[0] != c.Threads[2] {
 		o.Class("different thread counts")
